@@ -174,10 +174,10 @@ func VerifC09_q_reloadLossless() {
 	}
 }
 
-// BOUND: topologies {0,1}; a reload through updateConfigMap (to variant 0 re-encoded / 1 / 2) runs while another pod's bind runs atomically inside any one window right before or after an API call of the reload (symbolic window index 0..10); one pod bound beforehand
+// BOUND: topologies {0,1} (thorough: {0,1,3}); a reload through updateConfigMap (to variant 0 re-encoded / 1 / 2) runs while another pod's bind runs atomically inside any one window right before or after an API call of the reload (symbolic window index 0..10, thorough 0..14); one pod bound beforehand
 // ASSUME: C09: interference granularity = API-server calls: the second operation runs to completion inside one window of the first; interleavings in which it would have to wait for a lock held by the first are discarded
 func VerifC09_q_reloadWhileAllocating() {
-	topo := nondetChoice(2)
+	topo := []int{0, 1, 3}[nondetChoice(2+verifTier())]
 	w := vpNewWorld(topo, false)
 	text0, _ := vpConfig(topo, 0)
 	if err := w.reload(text0); err != nil {
@@ -196,7 +196,7 @@ func VerifC09_q_reloadWhileAllocating() {
 	node := nodes[nondetChoice(len(nodes))]
 	boundOK := false
 	w.interferer = func() { boundOK = w.bind(name, node) == nil }
-	w.windowAt = nondetInt(0, 10)
+	w.windowAt = nondetInt(0, 10+4*verifTier())
 	variant := nondetChoice(3)
 	text1, kept := vpConfig(topo, variant)
 	if variant == 0 {
